@@ -843,7 +843,7 @@ func modelErrorsAs(ex *Exec, fn *ssa.Function, args []Value, caller *Frame) (Val
 			return tTrue, nil
 		}
 		// As method
-		if m := ex.prog.LookupMethod(err.T, nil, "As"); m != nil && m.Signature.Params().Len() == 1 {
+		if m := ex.lookupMethodOrNil(err.T, nil, "As"); m != nil && m.Signature.Params().Len() == 1 {
 			r, p := ex.callFunction(m, []Value{err.V, tgt}, nil, caller)
 			if p != nil {
 				return nil, p
@@ -852,7 +852,7 @@ func modelErrorsAs(ex *Exec, fn *ssa.Function, args []Value, caller *Frame) (Val
 				return tTrue, nil
 			}
 		}
-		um := ex.prog.LookupMethod(err.T, nil, "Unwrap")
+		um := ex.lookupMethodOrNil(err.T, nil, "Unwrap")
 		if um == nil || um.Signature.Results().Len() != 1 {
 			return tFalse, nil
 		}
